@@ -337,6 +337,13 @@ class Check(Property):
                 for (m0, u0), x in zip(snap, quantities):
                     if x.units != u0 or not np.array_equal(np.asarray(x.magnitude), m0, equal_nan=True):
                         v.append(f"{desc} modified an input array")
+            if name == "copyto":
+                dst, src = args[0], args[1]
+                want_m = src.to(dst.units).magnitude
+                if not np.allclose(np.asarray(dst.magnitude, dtype=float), np.broadcast_to(want_m, np.shape(dst.magnitude)), rtol=1e-9):
+                    v.append(f"{desc}: the destination holds {self.show(dst)}, the source is {self.show(src)}")
+                if not np.array_equal(np.asarray(src.magnitude), snap[1][0]):
+                    v.append(f"{desc} modified its source")
             # NumPy on magnitudes prepared by the implied policy, with the implied unit
             exp = self.expected(c, f, args, kw, quantities)
             if exp is not None and name != "empty_like":         # uninitialised memory: nothing to compare
